@@ -50,6 +50,8 @@ def reason_of(ev, st):
         return "open-sockets-when-unload-returned"
     if e == "U_Boot":
         return "open-bootstrap-sockets-when-unload-returned"
+    if e == "BootOpen" and ev.get("t") in st.get("bdying", ()):
+        return "socket-opened-by-a-cancelled-initialisation"
     if e == "TaskEnd" and any(p[1] == ev["a"] for p in st.get("held", ())):
         return "initialisation-outlives-the-task-that-started-it"
     if e == "UnloadDone":
@@ -127,6 +129,12 @@ def record(scen, wiring, ks, seed, keys):
     return [sc.run_once(scen, wiring, k, seed, keys) for k in ks]
 
 
+def _late_activity(t):
+    """kinds of activity events a log contains after unload() returned (for the description of a rejected log)"""
+    done = [i for i, e in enumerate(t["events"]) if e["e"] == "UnloadDone"]
+    return sorted({e["e"] for e in t["events"][done[0] + 1:] if e["e"] in ACTIVITY}) if done else []
+
+
 def trace_part(ctx, tier, rng, keys, pool, after_recording=None):
     from .. import c11_scen as sc
     per = 4 if tier == "quick" else 150
@@ -184,8 +192,10 @@ def trace_part(ctx, tier, rng, keys, pool, after_recording=None):
             g = groups.setdefault(key, {"classes": set(), "n": 0, "first": None})
             g["classes"].add(t["cls"])
             g["n"] += 1
-            if g["first"] is None or len(t["events"]) < len(g["first"][0]["events"]):
-                g["first"] = (t, li, st)
+            # example: a log that also shows what follows after unload() returned, the shortest of those
+            rank = (not _late_activity(t), len(t["events"]))
+            if g["first"] is None or rank < g["rank"]:
+                g["first"], g["rank"] = (t, li, st), rank
         for ti, t in enumerate(flat):
             if t["unload_error"]:
                 ctx.violation("trace:unload-raised:%s:%s" % (t["wiring"], t["cls"]),
@@ -202,8 +212,7 @@ def trace_part(ctx, tier, rng, keys, pool, after_recording=None):
         lo = max(0, li - 6)
         ctxt = ["%d %s %s" % (i + 1, json.dumps(t["events"][i], sort_keys=True), t["notes"][i])
                 for i in range(lo, min(len(t["events"]), li + 2))]
-        done = [i for i, e in enumerate(t["events"]) if e["e"] == "UnloadDone"]
-        late = sorted({e["e"] for e in t["events"][done[0] + 1:] if e["e"] in ACTIVITY}) if done else []
+        late = _late_activity(t)
         ctx.violation("trace:%s:%s:%s" % (reason, wiring, kind),
                       "%s: %d recorded run(s) of %s on the %s wiring are not behaviours of Unload.tla; e.g. %s with "
                       "unload requested at %s: event %d %s (%s) is not possible in spec state phase=%s tasks=%s dying=%s "
